@@ -370,52 +370,69 @@ Definition xstep (retry_now : bool) (start_blk : N) (start_root : N) : xstate ->
    The theorems of Proofs/AggsenderProofs.v are about [step] (restart-free schedules); these events extend the
    executable model that is compared with the real code (see Properties/C02.v for what is and is not proved). *)
 Record xinfo := XI { xi_id : N; xi_from : N; xi_to : N; xi_prev : N; xi_new : N }.   (* what the Agglayer keeps of a certificate *)
-Record xrstate := XR { xr_core : xstate; xr_info : list xinfo; xr_recovering : bool }.
-Inductive xrevent := RCore (e : xevent) | RRestart (lost : bool) | RCrashTick (epoch : bool) (cut : N).
 
-Definition to_rrow (r : xrow) : Reconcile.row :=
+Section Restart.     (* exit roots are numbers (Reconcile.v's headers); event payloads and the tree stay generic *)
+Variables bev cev : Type.
+Variable b_leaf : bev -> N.
+Variable b_dc : bev -> N.
+Variable tree : Type.
+Variable t_add : tree -> N -> tree * N.
+Variable retry_now : bool.
+Variable start_blk : N.
+Variable start_root : N.
+Variable require_events : bool.
+Variable cert_type : N.
+Variable agg_prev : bool.            (* the Agglayer's headers carry prev_local_exit_root *)
+Notation cstate := (state N bev cev tree).
+Notation crow := (row N bev cev).
+Notation csub := (submission N bev cev).
+
+Record rstate := XR { xr_core : cstate; xr_info : list xinfo; xr_recovering : bool }.
+Inductive revent := RCore (e : event bev cev) | RRestart (lost : bool) | RCrashTick (epoch : bool) (cut : N).
+
+Definition to_rrow (r : crow) : Reconcile.row :=
   {| r_height := height r; r_retry := retry r; r_id := cid r; r_status := st r;
      r_prev_ler := if r_hasprev r then Some (prev r) else None; r_new_ler := new r; r_from := from r; r_to := to r;
-     r_created := None; r_ctype := 1; r_from_agg := false |}.
-Definition of_rrow (l : list (blk bridge_ev claim_ev)) (r : Reconcile.row) : xrow :=
+     r_created := None; r_ctype := cert_type; r_from_agg := false |}.
+Definition of_rrow (l : list (blk bev cev)) (r : Reconcile.row) : crow :=
   Row (r_height r) (r_id r) (r_status r) (r_from r) (r_to r) (match r_prev_ler r with Some p => p | None => 0 end)
       (r_new_ler r) (r_retry r) (bridges_in l (r_from r) (r_to r)) (claims_in l (r_from r) (r_to r))
       (match r_prev_ler r with Some _ => true | None => false end).
 (* the header the Agglayer serves: metadata V2 as BuildCertificate wrote it; prev_local_exit_root only when [agg_prev] *)
-Definition hdr_of (agg_prev : bool) (info : list xinfo) (c : acert) : hdr :=
+Definition hdr_of (info : list xinfo) (c : acert) : hdr :=
   let i := match find (fun i => xi_id i =? a_id c) info with Some i => i | None => XI (a_id c) 0 0 0 0 end in
   {| h_height := a_height c; h_id := a_id c; h_status := a_st c; h_new_ler := xi_new i;
      h_prev_ler := if agg_prev then Some (xi_prev i) else None;
-     h_meta := meta_encode (new_metadata (xi_from i) (xi_to i) 0 1) |}.
+     h_meta := meta_encode (new_metadata (xi_from i) (xi_to i) 0 cert_type) |}.
 (* [agg] is kept newest first: latest settled = first settled one; latest pending = the newest unless it is settled *)
-Definition view_of (agg_prev : bool) (info : list xinfo) (a : list acert) : aggview :=
-  {| a_settled := option_map (hdr_of agg_prev info) (find (fun c => is_settled (a_st c)) a);
-     a_pending := match a with c :: _ => if is_settled (a_st c) then None else Some (hdr_of agg_prev info c) | [] => None end;
-     a_known := map (hdr_of agg_prev info) a |}.
+Definition view_of (info : list xinfo) (a : list acert) : aggview :=
+  {| a_settled := option_map (hdr_of info) (find (fun c => is_settled (a_st c)) a);
+     a_pending := match a with c :: _ => if is_settled (a_st c) then None else Some (hdr_of info c) | [] => None end;
+     a_known := map (hdr_of info) a |}.
 
 (* one iteration of CheckInitialStatus on a fresh process; the scripted failure does not outlive the old process *)
-Definition recover_x (agg_prev lost : bool) (s : xrstate) : xrstate :=
+Definition recover_x (lost : bool) (s : rstate) : rstate :=
   let c := xr_core s in
   let store0 := {| s_info := if lost then [] else map to_rrow (rows c); s_hist := [] |} in
-  let '(store1, out) := Reconcile.recover false (view_of agg_prev (xr_info s) (agg c)) store0 in
+  let '(store1, out) := Reconcile.recover false (view_of (xr_info s) (agg c)) store0 in
   let rows1 := map (of_rrow (l2 c)) (rev (sort_by_height (s_info store1))) in
   XR (State (l2 c) (synced c) (tr c) (roots c) rows1 (agg c) (next_id c) false) (xr_info s) (refused out).
 
-Definition info_of (subs : list xsub) : list xinfo := map (fun sb => XI (s_id sb) (s_from sb) (s_to sb) (s_prev sb) (s_new sb)) subs.
+Definition info_of (subs : list csub) : list xinfo := map (fun sb => XI (s_id sb) (s_from sb) (s_to sb) (s_prev sb) (s_new sb)) subs.
 
-Definition xrstep (retry_now : bool) (start_blk start_root : N) (agg_prev : bool) (s : xrstate) (e : xrevent) : xrstate * list xsub :=
-  let core_step := xstep retry_now start_blk start_root in
+Definition rstep (s : rstate) (e : revent) : rstate * list csub :=
+  let core_step := step N bev cev b_leaf b_dc tree t_add retry_now start_blk start_root require_events cert_type in
   (* the same tick with a builder that builds nothing = the status refresh alone *)
-  let poll_only := step_gen N bridge_ev claim_ev bridge_leaf b_dc xtree xtree_add retry_now (fun _ _ => None) in
+  let poll_only := step_gen N bev cev b_leaf b_dc tree t_add retry_now (fun _ _ => None) in
   match e with
   | RCore ev =>
       match ev, xr_recovering s with
-      | EpochTick _, true | StatusTick _, true => (recover_x agg_prev false s, [])       (* still inside CheckInitialStatus *)
+      | EpochTick _, true | StatusTick _, true => (recover_x false s, [])       (* still inside CheckInitialStatus *)
       | _, _ => let '(c', subs) := core_step (xr_core s) ev in (XR c' (xr_info s ++ info_of subs) (xr_recovering s), subs)
       end
-  | RRestart lost => (recover_x agg_prev lost s, [])
+  | RRestart lost => (recover_x lost s, [])
   | RCrashTick epoch cut =>
-      if xr_recovering s then (recover_x agg_prev false s, []) else
+      if xr_recovering s then (recover_x false s, []) else
       let ev := if epoch then EpochTick cut else StatusTick cut in
       let '(c', subs) := core_step (xr_core s) ev in
       (* the certificate reached the Agglayer, the row did not reach the table *)
@@ -423,5 +440,26 @@ Definition xrstep (retry_now : bool) (start_blk start_root : N) (agg_prev : bool
                  | [] => c'
                  | _ => State (l2 c') (synced c') (tr c') (roots c') (rows (fst (poll_only (xr_core s) ev))) (agg c') (next_id c') (fail_next c')
                  end in
-      (recover_x agg_prev false (XR c'' (xr_info s ++ info_of subs) false), subs)
+      (recover_x false (XR c'' (xr_info s ++ info_of subs) false), subs)
   end.
+End Restart.
+Arguments XR {bev cev tree}. Arguments xr_core {bev cev tree}. Arguments xr_info {bev cev tree}. Arguments xr_recovering {bev cev tree}.
+Arguments RCore {bev cev}. Arguments RRestart {bev cev}. Arguments RCrashTick {bev cev}.
+Arguments info_of {bev cev}.
+
+(* the executable instance: PP flow over real Keccak *)
+Definition xrstate := rstate bridge_ev claim_ev xtree.
+Definition xrevent := revent bridge_ev claim_ev.
+Definition xrstep (retry_now : bool) (start_blk start_root : N) (agg_prev : bool) : xrstate -> xrevent -> xrstate * list xsub :=
+  rstep bridge_ev claim_ev bridge_leaf b_dc xtree xtree_add retry_now start_blk start_root true 1 agg_prev.
+
+(* the executable instance of the aggchain-prover flow: certificate type 2, empty certificates allowed, the stored proof
+   of a certificate in error is always there (rows written by sendCertificate), the prover scripted by a rule:
+   with f = lastProven+1 and t = requestedEnd: 0 t | 1 f+(t-f)/2 | 2 f | 3 t+1 | 4 f-1 | else no proof *)
+Definition prover_of (rule : N) (lp t : N) : option N :=
+  let f := lp + 1 in
+  if rule =? 0 then Some t else if rule =? 1 then Some (f + (t - f) / 2) else if rule =? 2 then Some f
+  else if rule =? 3 then Some (t + 1) else if rule =? 4 then Some lp else None.
+Definition xstep_fep (retry_now : bool) (start_blk start_root rule : N) : xstate -> xevent -> xstate * list xsub :=
+  step_gen N bridge_ev claim_ev bridge_leaf b_dc xtree xtree_add retry_now
+           (build_fep N bridge_ev claim_ev b_dc xtree start_blk start_root false 2 (prover_of rule) true).
